@@ -397,6 +397,16 @@ func (c *EvalCtx) evalBinary(e *SExpr) (SV, error) {
 			b = ts.RealFromInt(b)
 		} else if a.Sort == SInt && b.Sort == SReal {
 			a = ts.RealFromInt(a)
+		} else if (e.Name == "==" || e.Name == "!=") && a.Sort == SInt && strings.HasPrefix(b.Sort.Name, "S_") {
+			// a reference-sorted key compared with a structured value:
+			// compare with the value's injective encoding (see evalIndex)
+			enc := ex.uf("keyenc!"+smtIdent(b.Sort.String()), SInt, b)
+			ex.assume(ts.True(), ts.Eq(ex.uf("keydec!"+smtIdent(b.Sort.String()), b.Sort, enc), b))
+			b = enc
+		} else if (e.Name == "==" || e.Name == "!=") && b.Sort == SInt && strings.HasPrefix(a.Sort.Name, "S_") {
+			enc := ex.uf("keyenc!"+smtIdent(a.Sort.String()), SInt, a)
+			ex.assume(ts.True(), ts.Eq(ex.uf("keydec!"+smtIdent(a.Sort.String()), a.Sort, enc), a))
+			a = enc
 		} else {
 			return SV{}, fmt.Errorf("operands of %s have sorts %s and %s in %s", e.Name, a.Sort, b.Sort, e)
 		}
@@ -657,6 +667,15 @@ func (c *EvalCtx) evalIndex(e *SExpr) (SV, error) {
 		// a ghost row (SMT array)
 		if tv, ok := base.V.(TV); ok && tv.T.Sort.IsArray() && tv.T.Sort.Args[0] == idx.Sort {
 			return SV{V: TV{ts.Select(tv.T, idx)}}, nil
+		}
+		if tv, ok := base.V.(TV); ok && tv.T.Sort.IsArray() && tv.T.Sort.Args[0] == SInt && idx.Sort != SInt {
+			// a key that is a structured value in this configuration (its
+			// package is among the loaded ones): index by an injective
+			// encoding of the value
+			enc := ex.uf("keyenc!"+smtIdent(idx.Sort.String()), SInt, idx)
+			dec := ex.uf("keydec!"+smtIdent(idx.Sort.String()), idx.Sort, enc)
+			ex.assume(ts.True(), ts.Eq(dec, idx))
+			return SV{V: TV{ts.Select(tv.T, enc)}}, nil
 		}
 		return SV{}, fmt.Errorf("%s: untyped index base", e)
 	}
